@@ -69,7 +69,9 @@ def pred_pool(depth, wide=False):
               ("and", ("gt", A, K), ("eq", A, B)), ("or", ("gt", A, K), ("pref", "a")), ("and", ("plit", True)),
               ("or", ("plit", False)),
               # foldable operands that still *read* a column when evaluated (the constant comes last)
-              ("and", ("gt", A, K), ("plit", False)), ("or", ("eq", A, B), ("plit", True))]
+              ("and", ("gt", A, K), ("plit", False)), ("or", ("eq", A, B), ("plit", True)),
+              # conjunctions whose operands are all trivially true (they flatten to nothing)
+              ("and", ("plit", True), ("plit", True)), ("and", ("and",), ("and",))]
         if d >= 1:
             nr = nr[:8] + nr[12:] + [("not", ("and", ("plit", False), ("gt", A, K))), ("not", ("or",)), ("and", ("or",), ("gt", A, K)),
                            ("or", ("and",), ("eq", A, B))]
